@@ -88,6 +88,13 @@ R1 = {
         M("algo/Radix.tla", "algo/Radix_W4N1L4.cfg", workers=8), M("algo/Radix.tla", "algo/Radix_W4N2L4.cfg", workers=8),
         M("algo/Radix.tla", "algo/Radix_W2N2L4.cfg", tiers=T, workers=12), M("algo/Radix.tla", "algo/Radix_W8N1L4.cfg", tiers=T, workers=12),
         M("algo/Radix.tla", "algo/Radix_W4N3L4.cfg", tiers=T, workers=12),
+        M("algo/RadixEnc.tla", "algo/RadixEnc_W3L2N4.cfg", workers=8), M("algo/RadixEnc.tla", "algo/RadixEnc_W4L2N3.cfg", workers=8),
+        M("algo/RadixEnc.tla", "algo/RadixEnc_W4L2N3_pinned.cfg", expect_violation="EncodeOK"),
+        M("algo/RadixEnc.tla", "algo/RadixEnc_W4L2N3_mut.cfg", expect_violation="EncodeOK"),
+        M("algo/RadixEnc.tla", "algo/RadixEnc_W4L2N3_reach_large.cfg", expect_violation="ReachLarge"),
+        M("algo/RadixEnc.tla", "algo/RadixEnc_W4L2N3_reach_hi.cfg", expect_violation="ReachHi"),
+        M("algo/RadixEnc.tla", "algo/RadixEnc_W4L2N4.cfg", tiers=T, workers=12), M("algo/RadixEnc.tla", "algo/RadixEnc_W3L3N5.cfg", tiers=T, workers=12),
+        M("algo/RadixEnc.tla", "algo/RadixEnc_W6L1N2.cfg", tiers=T, workers=12), M("algo/RadixEnc.tla", "algo/RadixEnc_W6L2N3.cfg", tiers=T, workers=12, timeout=3000),
     ],
     "C16": [
         M("algo/HexNibble.tla", "algo/HexNibble.cfg", workers=8),
